@@ -100,6 +100,7 @@ type callRec struct {
 	args   []Val
 	res    []Val
 	seq    int
+	fn     Val // the function value that was called (opaque calls)
 }
 
 type State struct {
